@@ -233,17 +233,15 @@ func (c *Config) flattenedKeys(opts *options) []string {
 		}
 	}
 
-	if c.IsDict() {
-		// in sorted order: what a reference evaluates to can depend on what was
-		// evaluated (and cached) before it
-		dict := c.fields.dict()
-		for _, k := range sortedKeys(dict) {
-			visit(dict[k])
-		}
-	} else if c.IsArray() {
-		for _, a := range c.fields.array() {
-			visit(a)
-		}
+	// a config can hold named settings and a list part at once (a.0 and a.name):
+	// both are listed. In sorted order: what a reference evaluates to can depend
+	// on what was evaluated (and cached) before it
+	dict := c.fields.dict()
+	for _, k := range sortedKeys(dict) {
+		visit(dict[k])
+	}
+	for _, a := range c.fields.array() {
+		visit(a)
 	}
 
 	sort.Strings(keys)
